@@ -93,6 +93,24 @@ def run(repo: Repo, rep: Report, tier: str) -> None:
         ok = bool(flags) and any(t == f"isinstance({operand}, SignalRef)" and pol for t, pol in cguards_any(m, flags[0]))
         rep.check(ok, "C02-R2", f"{name} flags wire separation when `{operand}` is a signal", norm(flags[0]) if flags else "flag never set", m.loc())
     ep = repo.cls("EntityPlacer")
+    rep.rule("C02-R15", "a bundle constant is never read as a number: an unnamed `{...}` literal is an IRConst with member signals and value 0; the layout may inline an unnamed "
+             "scalar constant into its consumer as a literal, but for a constant with members either the inlining test declines or the materialisation decision keeps it "
+             "— otherwise `{(\"signal-A\", 5), (\"signal-B\", 7)} * k` multiplies the literal 0")
+    dm15 = repo.func("SignalAnalyzer._decide_materialization")
+    ci15 = repo.func("SignalAnalyzer.can_inline_constant")
+    declines15 = any(isinstance(n, ast.If) and ".signals" in norm(n.test) and any(isinstance(x, ast.Return) and norm(x.value) == "False" for x in n.body) for n in walk_local(ci15.node))
+    keeps15 = []
+    for n in walk_local(dm15.node):
+        if isinstance(n, ast.If) and norm(n.test).endswith(".signals") and any(isinstance(b, ast.Assign) and norm(b.targets[0]).endswith(".should_materialize") and norm(b.value) == "True" for b in n.body) \
+                and any(isinstance(b, ast.Return) for b in n.body):
+            keeps15.append(n)
+    inl15 = [n for n in walk_local(dm15.node) if isinstance(n, ast.Assign) and norm(n.targets[0]).endswith(".should_materialize") and "consumers" in norm(n.value)]
+    if not inl15:
+        raise AnalysisError("C02-R15: the inlining decision (`should_materialize = bool(... consumers ...)`) was not found")
+    g15 = CFG(dm15.node)
+    dom15 = any(g15.dominates(k, inl15[0]) for k in keeps15)
+    rep.check(declines15 or dom15, "C02-R15", "a constant with member signals is kept as a combinator", "can_inline_constant declines" if declines15 else "kept before the inlining decision" if dom15 else
+              "the inlining decision does not look at `.signals`: an unnamed bundle literal with consumers is replaced by its `value`, 0", dm15.loc(inl15[0]))
     rep.rule("C02-R14", "a wildcard compared with a signal does not count that signal: `any(b) CMP k` / `all(b) CMP k` is a decider whose first operand is signal-anything / "
              "signal-everything; the placement raises the separation flag for it, and the planner then brings the scalar in on green as it does for a bundle filter")
     pa = ep.methods["_place_arithmetic"]
